@@ -67,6 +67,7 @@ type vspActorSpec struct {
 }
 
 type vspScenario struct {
+	Connect []vspActorSpec   `json:"connect"` // connect-time server-side subscriptions (then an actor of kind "connect" must exist)
 	Actors []vspActorSpec    `json:"actors"`
 	Chans  []string          `json:"chans"`
 	Sched  []json.RawMessage `json:"sched"`
@@ -97,6 +98,8 @@ type vspSched struct {
 	anonN   int
 	events  int
 	errs    []string
+	// connect-time subscriptions run in goroutines spawned by connectCmd: failure injection by channel
+	failByCh map[string]string
 }
 
 func (s *vspSched) emit(format string, a ...any) {
@@ -132,6 +135,9 @@ func (s *vspSched) gate(tag, ch string, failable bool, effect func(fail bool)) b
 	a := s.current()
 	fail := failable && (a.spec.Fail == tag || (tag == "onsub" && a.spec.Fail == "onsubdisc"))
 	ch = vspBase(ch)
+	if failable && a.anon && s.failByCh[ch] == tag {
+		fail = true
+	}
 	if ch == "" {
 		ch = "-"
 	}
@@ -164,7 +170,7 @@ func (s *vspSched) event(tag, ch string) bool {
 	s.mu.Lock()
 	defer s.mu.Unlock()
 	a := s.current()
-	fail := a.spec.Fail == tag
+	fail := a.spec.Fail == tag || (a.anon && s.failByCh[vspBase(ch)] == tag)
 	o := "ok"
 	if fail {
 		o = "fail"
@@ -242,7 +248,8 @@ func vspGoroutines() map[int64]vspGoInfo {
 			}
 		}
 		var creator int64
-		if i := bytes.LastIndex(blk, []byte(" in goroutine ")); i >= 0 && bytes.Contains(blk, []byte("created by github.com/centrifugal/centrifuge.(*Client).")) {
+		if i := bytes.LastIndex(blk, []byte(" in goroutine ")); i >= 0 && bytes.Contains(blk, []byte("created by github.com/centrifugal/centrifuge.(*Client).")) &&
+			!bytes.Contains(blk, []byte("created by github.com/centrifugal/centrifuge.(*Client).startWriter")) {
 			tail := blk[i+len(" in goroutine "):]
 			if nl := bytes.IndexByte(tail, '\n'); nl >= 0 {
 				tail = tail[:nl]
@@ -516,9 +523,20 @@ func vspNewWorld() (*vspWorld, error) {
 	w.pres = &vspPresence{inner: node.presenceManager.(*MemoryPresenceManager), w: w}
 	node.SetPresenceManager(w.pres)
 	node.OnConnecting(func(ctx context.Context, ev ConnectEvent) (ConnectReply, error) {
-		return ConnectReply{Credentials: &Credentials{UserID: "u1"}}, nil
+		rep := ConnectReply{Credentials: &Credentials{UserID: "u1"}}
+		if e := w.cur(); e != nil && len(e.connectSubs) > 0 {
+			e.s.gate("connecting", "", false, nil)
+			rep.Subscriptions = map[string]SubscribeOptions{}
+			for _, cs := range e.connectSubs {
+				rep.Subscriptions[e.real(cs.Ch)] = SubscribeOptions{EmitPresence: cs.P != 0, EmitJoinLeave: cs.J != 0, PushJoinLeave: cs.J != 0}
+			}
+		}
+		return rep, nil
 	})
 	node.OnConnect(func(c *Client) {
+		if e := w.cur(); e != nil && len(e.connectSubs) > 0 {
+			e.s.gate("onconnect", "", false, nil)
+		}
 		c.OnSubscribe(func(ev SubscribeEvent, cb SubscribeCallback) {
 			e := w.cur()
 			if e == nil {
@@ -583,6 +601,7 @@ type vspEnv struct {
 	blog     []string
 	cbMu     sync.Mutex
 	holding  bool
+	connectSubs []vspActorSpec
 	baseConn float64
 	baseSub  float64
 }
@@ -734,6 +753,11 @@ func (e *vspEnv) runActor(a *vspActor) {
 			c.Unsubscribe(ch)
 		case "close":
 			_ = c.close(DisconnectForceNoReconnect)
+		case "connect":
+			// the real command path: a failing connect makes HandleCommand spawn close()
+			if !c.HandleCommand(&protocol.Command{Id: 1, Connect: &protocol.ConnectRequest{}}, 0) {
+				ret = "err"
+			}
 		}
 	}()
 	s.mu.Lock()
@@ -743,11 +767,21 @@ func (e *vspEnv) runActor(a *vspActor) {
 }
 
 var vspTheWorld *vspWorld
+var vspLastSched *vspSched
 
 func vspRunScenario(line string) (out string) {
 	defer func() {
 		if r := recover(); r != nil {
 			out = fmt.Sprintf("HARNESS-ERROR panic %v", r)
+		}
+		if strings.HasPrefix(out, "HARNESS-ERROR") && os.Getenv("VERIF_DEBUG") != "" && vspLastSched != nil {
+			s := vspLastSched
+			s.mu.Lock()
+			out += " TRACE " + strings.Join(s.trace, ";")
+			s.mu.Unlock()
+			buf := make([]byte, 1<<20)
+			n := runtime.Stack(buf, true)
+			os.WriteFile("/tmp/vsp/stacks.txt", buf[:n], 0o644)
 		}
 		if strings.HasPrefix(out, "HARNESS-ERROR") && vspTheWorld != nil {
 			// never reuse a node after a harness problem
@@ -778,7 +812,16 @@ func vspRunScenario(line string) (out string) {
 	w.seq++
 	node := w.node
 	s := &vspSched{byGoid: map[int64]*vspActor{}, freeRun: true}
+	vspLastSched = s
 	e := &vspEnv{s: s, w: w, node: node, chans: sc.Chans, suffix: "~" + strconv.Itoa(w.seq), onUnsub: map[string]int{}}
+	if len(sc.Connect) > 0 {
+		s.failByCh = map[string]string{}
+		for _, cs := range sc.Connect {
+			if cs.Fail != "" {
+				s.failByCh[cs.Ch] = cs.Fail
+			}
+		}
+	}
 	w.mu.Lock()
 	w.env = e
 	w.mu.Unlock()
@@ -815,11 +858,15 @@ func vspRunScenario(line string) (out string) {
 		return "HARNESS-ERROR new client: " + err.Error()
 	}
 	e.client = client
-	// connect (free-run: gates pass straight through; nothing is recorded before the scenario starts)
-	if err := client.connectCmd(&protocol.ConnectRequest{}, &protocol.Command{Id: 1}, time.Now(), &replyWriter{write: func(*protocol.Reply) {}}); err != nil {
-		return "HARNESS-ERROR connect: " + err.Error()
+	if len(sc.Connect) == 0 {
+		// connect (free-run: gates pass straight through; nothing is recorded before the scenario starts)
+		if err := client.connectCmd(&protocol.ConnectRequest{}, &protocol.Command{Id: 1}, time.Now(), &replyWriter{write: func(*protocol.Reply) {}}); err != nil {
+			return "HARNESS-ERROR connect: " + err.Error()
+		}
+		client.triggerConnect()
+	} else {
+		e.connectSubs = sc.Connect // the connect itself is an actor of this scenario
 	}
-	client.triggerConnect()
 	s.mu.Lock()
 	s.trace = nil
 	s.events = 0
@@ -836,8 +883,25 @@ func vspRunScenario(line string) (out string) {
 	releasable := func() []*vspActor {
 		s.mu.Lock()
 		defer s.mu.Unlock()
+		// an application can reach a connection (Client.Subscribe / Unsubscribe, commands) only once
+		// connectCmd registered it in the hub: in connect scenarios such actors wait for that
+		registered := true
+		if len(e.connectSubs) > 0 {
+			cs := node.hub.connShards[index("u1", numHubShards)]
+			cs.mu.RLock()
+			_, registered = cs.clients[client.uid]
+			cs.mu.RUnlock()
+			client.mu.RLock()
+			if client.status == statusClosed {
+				registered = true // the operation is then a no-op on a closed client
+			}
+			client.mu.RUnlock()
+		}
 		var r []*vspActor
 		for _, a := range s.actors {
+			if a.state == vspNotStarted && !registered && a.spec.Kind != "connect" && a.spec.Kind != "close" {
+				continue
+			}
 			if a.state == vspNotStarted || a.state == vspParked {
 				r = append(r, a)
 			}
@@ -942,6 +1006,11 @@ func vspRunScenario(line string) (out string) {
 					return nil
 				}
 				if !waitProgress() {
+					if os.Getenv("VERIF_DEBUG") != "" {
+						buf := make([]byte, 1<<20)
+						n := runtime.Stack(buf, true)
+						_ = os.WriteFile("/tmp/vsp/stacks.txt", buf[:n], 0o644)
+					}
 					return fmt.Errorf("blocked actors made no progress in 9s")
 				}
 			}
